@@ -1211,6 +1211,14 @@ impl ConfigState {
             )?,
         );
 
+        // Resolve the names as `add_certificate` does, and before touching the
+        // map: the stored certificate must be the one a replay of
+        // `generate_requests` (an AddCertificate) would store.
+        let mut new_certificate = replace.new_certificate.clone();
+        new_certificate
+            .apply_overriding_names()
+            .map_err(|names_err| StateError::ReplaceCertificate(names_err.to_string()))?;
+
         self.certificates
             .get_mut(&replace_address)
             .ok_or(StateError::NotFound {
@@ -1221,7 +1229,7 @@ impl ConfigState {
 
         self.certificates
             .get_mut(&replace_address)
-            .map(|certs| certs.insert(new_fingerprint.clone(), replace.new_certificate.clone()));
+            .map(|certs| certs.insert(new_fingerprint.clone(), new_certificate));
 
         if !self
             .certificates
